@@ -695,6 +695,25 @@ class Unit:
         return text, {'file': 'src/' + fname, 'path': path, 'sha': span.sha(), 'line': span.line(), 'derives_dropped': derives}
 
     # -------------------------------------------------------------------------------------------------------
+    def _refinement_check(self, sec):
+        """`@@ refines <unit> :: <fn>` + `%% call <expr>`: the contract that ANOTHER unit assumes for a function proved in this unit
+        (its `external_body` declaration, copied from that unit's contract file on every run) is put on a wrapper whose body is the
+        call of the function as proved here.  Verus then checks: assumed precondition ==> proved precondition, proved postcondition ==>
+        assumed postcondition.  This replaces "the copies are kept in sync by hand" by a discharged obligation."""
+        other, fname = [x.strip() for x in sec.arg.split('::')]
+        text = open(os.path.join(ROOT, 'contracts', other + '.spec'), encoding='utf-8').read()
+        m = re.search(r'#\[verifier::external_body\]\s*(?:pub\s+)?fn\s+' + re.escape(fname) + r'\b(.*?)\{\s*unimplemented!\(\)\s*\}', text, re.S)
+        if not m:
+            raise SpecError("refines: no external_body declaration of fn %s in contracts/%s.spec" % (fname, other))
+        header = re.sub(r'//[^\n]*', '', m.group(1))          # comments (and @labels) of the other unit are not carried over
+        call = sec.one('call')
+        if not call:
+            raise SpecError("refines %s: no %%%% call" % sec.arg)
+        wname = '%s__as_assumed_in_%s' % (fname, other)
+        self.refinements = getattr(self, 'refinements', []) + [{'wrapper': wname, 'assumed_in': other, 'function': fname}]
+        return ("// ---- refinement check: the contract unit %s ASSUMES for `%s` (text copied from contracts/%s.spec on this run) against the function as proved here ----\n"
+                "fn %s%s{ %s }" % (other, fname, other, wname, header, call[1]))
+
     def assemble(self, canary=None):
         """returns Emitted. canary: Section of kind canary or None"""
         self.rewrites = []
@@ -718,6 +737,8 @@ class Unit:
                     em.add(open(os.path.join(ROOT, 'contracts', 'prelude', p + '.rs'), encoding='utf-8').read())
             elif s.kind == 'raw':
                 em.add(s.body)
+            elif s.kind == 'refines':
+                em.add(self._refinement_check(s))
             elif s.kind == 'item':
                 mu = mutation if (mut_target and s.arg.replace(' ', '') == mut_target) else None
                 mutated |= mu is not None
@@ -923,6 +944,7 @@ def verify_unit(spec_path, canaries='none', rlimit=None, seed=None, keep=True, r
     for sct in unit.secs:
         if sct.kind == 'raw':
             own |= set(n for n in re.findall(r'\bfn\s+(\w+)', sct.body) if not AX.match(n))
+    own |= set(r['wrapper'] for r in getattr(unit, 'refinements', []))
     # prelude functions (vassert, facade methods, ...) and constants are not counted as obligations
     allf = {n: v for n, v in cl['all_functions'].items() if n.split('::')[-1] in own}
     obligations = len(allf)
